@@ -734,3 +734,52 @@ func TestVerifProbe_F07b(t *testing.T) {
 }
 
 var _ = sort.Strings
+
+// C09 at a size the small pool cannot reach: a completed full sync that has to
+// delete around a thousand entities (the deletion pass works in batches of
+// 1000). N live entities, a sync (HTTP or job driven) that contains only a few
+// of them, completion: every other live entity is marked deleted exactly once.
+func TestVerif_C09_large(t *testing.T) {
+	defer kit.S().Flush()
+	defer kit.CleanupScratch()
+	if os.Getenv("VERIF_REPLAY_CASE") != "" {
+		return
+	}
+	rapid.Check(t, func(t *rapid.T) {
+		c := newC09(t, false)
+		defer c.close()
+		n := rapid.SampledFrom([]int{999, 1000, 1001, 1002, 1500, 2001, 2010, 3005}).Draw(t, "n")
+		kept := rapid.IntRange(0, 12).Draw(t, "kept")
+		job := rapid.Bool().Draw(t, "job")
+		p := c.h.P[0]
+		mk := func(i int, v string) *kit.Ent {
+			return ent(fmt.Sprintf("%s:L%d", p, i), map[string]any{p + ":p0": v}, nil, false)
+		}
+		for from := 0; from < n; from += 400 {
+			var es []*kit.Ent
+			for i := from; i < from+400 && i < n; i++ {
+				es = append(es, mk(i, "v0"))
+			}
+			c.apply(c09Op{K: "write", Ents: es})
+		}
+		var keep []*kit.Ent
+		for i := 0; i < kept; i++ {
+			keep = append(keep, mk(rapid.IntRange(0, n-1).Draw(t, "keep"), "v1"))
+		}
+		if job {
+			c.apply(c09Op{K: "jobStart", Run: 1})
+			if len(keep) > 0 {
+				c.apply(c09Op{K: "write", Ents: keep})
+			}
+			c.apply(c09Op{K: "jobEnd", Run: 1})
+		} else {
+			c.apply(c09Op{K: "http", Sync: "big", Start: true, Ents: keep})
+			c.apply(c09Op{K: "http", Sync: "big", End: true})
+		}
+		if c.dead {
+			return
+		}
+		kit.S().Case(map[string]any{"large": n, "kept": kept, "job": job}, true, "large-sync", fmt.Sprintf("large-deletes>=%d", (n-kept)/1000*1000))
+		kit.JournalDone()
+	})
+}
